@@ -108,6 +108,11 @@ def conforming_history(rng, max_frames=8, snap=True, with_cols=True, with_params
     if plan == 'late-declare': steps += [('dp', n) for n in pts] + [('da', c) for c in chans]
     if rng.random() < 0.3: rng.shuffle(steps)
     if with_params and rng.random() < 0.5: steps.insert(rng.randrange(len(steps) + 1), ('param',))
+    # rates are set again, several times: ratios that shrink by one sub-frame are where rescaling arithmetic lives
+    if rng.random() < 0.6:
+        for _ in range(rng.choice([1, 2, 3])):
+            if rng.random() < 0.75: steps.append(('ra2', rng.choice([10, 9, 8, 7, 5, 4, 3, 2, 1, 6, 12])))
+            else: steps.append(('rp2', rng.choice([50.0, 100.0, 200.0, 25.0, 0.0])))
     for st in steps:
         if st[0] == 'dp': b.declare_point(st[1]); sh.pts.append(trim(st[1]))
         elif st[0] == 'da': b.declare_analog(st[1]); sh.chans.append(trim(st[1]))
@@ -115,8 +120,16 @@ def conforming_history(rng, max_frames=8, snap=True, with_cols=True, with_params
             if npts or rng.random() < 0.5: b.set_rate(b'POINT', prate, rng.random() < 0.3)
         elif st[0] == 'ra':
             if nch: b.set_rate(b'ANALOG', arate, rng.random() < 0.3)
+        elif st[0] == 'ra2':
+            if nch: b.set_rate(b'ANALOG', (sh.prate or 100.0) * st[1], rng.random() < 0.3)
+        elif st[0] == 'rp2':
+            b.set_rate(b'POINT', st[1], rng.random() < 0.3)
         elif st[0] == 'param':
             b.raw('P.new %s x' % hx(b'NOTE')); b.raw('P.set I 0 2 1 2'); b.emit('param 0 ' + hx(b'EXTRA'), 'param')
+    if (sh.pts and sh.prate == 0.0): b.set_rate(b'POINT', prate)
+    if (sh.chans and sh.arate == 0.0): b.set_rate(b'ANALOG', arate)
+    # a conforming data set has at least one sub-frame per frame when channels are declared
+    if sh.chans and sh.expected_nsub() < 1: b.set_rate(b'ANALOG', (sh.prate or 1.0) * rng.choice([1, 2, 3, 10]))
     # frames
     nfr = rng.choice([0, 1, 2, 3, max_frames])
     for k in range(nfr):
